@@ -82,8 +82,15 @@ def run(chk, ctx):
             mult = "?"
         exp = expected_mult(run_.cname, run_.config)
         cons = f"{run_.construct}#passes{cfg}" + (f"@{run_.cname}" if run_.owner != run_.cname else "")
+        raises_only = mult == "0" and not ends and any(o.kind == "raise" for o in it.outcomes) \
+            and not any(rec.kind == "EndForward" for rec in it.yields)
         if exp is None:
             chk.note(f"{run_.cname}{cfg}: {mult} adjoint calculations (class not in the documented table)")
+        elif raises_only and exp != "0":
+            # a cell of the configuration in which the generator fails before the forward calculation is
+            # complete is outside the domain the table speaks about (whether it must be rejected earlier
+            # is C17's question)
+            chk.note(f"{run_.cname}{cfg}: every path raises before EndForward; not a configuration of the documented table")
         else:
             chk.decide("C09.MULT", cons, True if mult == exp else (None if mult == "?" else False),
                        f"{run_.cname}{cfg} permits {mult} adjoint calculation(s); documented: {exp}",
